@@ -33,6 +33,12 @@ Theorem C09_discipline : forall orders est p m key cost vs added p' m' rounds re
         (length smp <= lfu_sample)%nat /\ (forall x, x ∈ smp -> is_Some (p_costs p !! x.1)))).
 Proof. exact pol_add_spec. Qed.
 
+(* The eviction loop always terminates: the fuel of the model (6 * (number of accounted keys + 1) rounds) is never
+   exhausted, for every map order, estimate function and state — including the duplicate and stale sample entries
+   that fillSample can produce. *)
+Theorem C09_terminates : forall orders est p m key cost, pol_add orders est p m key cost <> AddOutOfFuel.
+Proof. exact pol_add_terminates. Qed.
+
 (* what [round_ok] says, spelled out *)
 Theorem C09_round_ok_meaning : forall est inc dom0 r, round_ok est inc dom0 r ->
   rd_victim r ∈ rd_sample r /\
